@@ -318,17 +318,34 @@ Print Assumptions C10_sync_async_same_source.
       (_async_get_key -> _sync_get_key, async_lookup_dc -> lookup_dc on PCall callee keys; nothing else is touched).
    2. abstract model (Model/Cache.v, the functions the theorems above are about): the four public functions compute
       Cache.unprotect / Cache.protect - the key used (o_key) AND the cache afterwards - for every cache, request, DC oracle.
+      In this world `_decrypt_blob` / `_encrypt_blob` are the o_key PROJECTIONS of Cache.unprotect_finish / protect_finish, i.e. of
+      the functions under proof (Model/Cache.v has no separate "use the envelope" function): these ties do not check how a key
+      is derived from an envelope (that is Model/Client.v decrypt_blob / encrypt_blob, tied in Proofs/Flow_e2e_*.v); they check
+      which envelope reaches that call (cached / the DC's reply to exactly the request the model names), for which blob or
+      descriptor, whether it is stored first, and the cache left behind.
+      No theorem relates Model/Cache.v to Model/Client.v: the abstract and the concrete cache model meet only in the source
+      (these ties, the shared k_cache kernels) and in the correspondence runs.
    3. concrete model (Model/Client.v): the four public functions compute unprotect_offline / protect_offline (value and cache
       afterwards) when no DC is reachable, and unprotect_online / protect_online (the same pipelines with the miss branch
-      filled in by the network oracles) in general.
-   4. KeyCache.__init__, load_key.  KeyCache._store_key and KeyCache._get_key store through aliases of inner dictionaries
+      filled in by the network oracles) in general.  _get_protection_gke_from_cache's own body (gen/F_e2e.v) computes value AND
+      cache afterwards of protection_gke_from_cache: what the world says when ncrypt_protect_secret calls it.
+   3b. a call that RAISES: run_mut gives `Raise e` without the environment, so the ties of 2 and 3 (alift / lift2) say nothing
+      about the cache then.  The *_cache_stored / *_abs_cache theorems run the body without its final `return` (exec_block on
+      removelast): the cache the store left, whether or not the decrypt / encrypt then raises; *_cache_looked_up run it up to
+      the cache lookup: the cache left when the network step raises; *_online_cache_cases: these are exactly the caches the
+      model returns.  Not covered: the cache at a raise INSIDE a callee that is itself handed the cache (_get_key,
+      _get_protection_gke_from_cache raising in KDFParameters.unpack / compute_l2_key).
+   4. KeyCache.__init__, load_key (with its default argument values, regenerated).  load_key_root (the default filling) has no
+      counterpart in Model/Client.v: cc_load takes the finished RootKey, which the harness reads back from the real load_key.
+      KeyCache._store_key and KeyCache._get_key store through aliases of inner dictionaries
       (`seed_key = self._seed_keys.setdefault(..).setdefault(..)` ... `seed_key[key.l0] = key`): the flow semantics is
       single-owner, the translator refuses both (fail closed) and they have no tie; they stay covered by the kernels
       k_cache_covers / k_cache_store / k_cache_root_overwrites and the correspondence cache.histories.
    ---------------------------------------------------------------------------------------------------------------- *)
-From V Require Import Prelude.PyAst Prelude.PyAstMut Prelude.PyWorld gen.F_cache.
-From V Require Import Model.Types Model.Crypto Model.Gkdi Model.Client Flow.World_cache.
+From V Require Import Prelude.PyAst Prelude.PyAstMut Prelude.PyWorld gen.F_cache gen.F_e2e.
+From V Require Import Model.Types Model.Crypto Model.Gkdi Model.Kek Model.Client Flow.World_cache.
 From V Require Import Proofs.Flow_cache_twins Proofs.Flow_cache_abs Proofs.Flow_cache_public Proofs.Flow_cache_class.
+From V Require Import Proofs.Flow_cache_gke Proofs.Flow_cache_prefix Proofs.Flow_cache_absprefix.
 
 (* ---- 1. twins ---- *)
 Theorem C10_flow_twin_unprotect : k_flow_ncrypt_unprotect_secret = ren_f k_flow_async_ncrypt_unprotect_secret.
@@ -473,4 +490,127 @@ Theorem C10_flow_keycache_load_key : forall c r1 r2 r3 ns dns getkey fuel cc key
   = (let* rk := load_key_root key ver kalg kpar salg spar priv pub in Ok (VN, VO (OCache (cc_load cc rkid rk)))).
 Proof. exact flow_keycache_load_key. Qed.
 Print Assumptions C10_flow_keycache_load_key.
+Theorem C10_flow_load_key_defaults : forall c r1 r2 r3 ns dns getkey,
+  eval_defaults (W c r1 r2 r3 ns dns getkey) k_flow_keycache_load_key_defaults
+  = [("version", Ok (VI 1)); ("kdf_algorithm", Ok (VS STR_KDF_ALG)); ("kdf_parameters", Ok VN);
+     ("secret_algorithm", Ok (VS STR_DH)); ("secret_parameters", Ok VN);
+     ("private_key_length", Ok (VI 512)); ("public_key_length", Ok (VI 2048))].
+Proof. exact flow_load_key_defaults. Qed.
+Print Assumptions C10_flow_load_key_defaults.
+(* the RootKey load_key(key, root_key_id) stores; Proofs/C01.v ex_rk is this record with rk_secret_params := None (built directly) *)
+Theorem C10_load_key_root_defaults : forall key,
+  load_key_root key 1 STR_KDF_ALG None STR_DH None 512 2048
+  = (let* kp := KDFParameters_pack (ascii_str "SHA512") in
+     let* sp := FFCDHParameters_pack default_dh_params in
+     Ok {| rk_key := key; rk_version := 1; rk_kdf_alg := STR_KDF_ALG; rk_kdf_params := kp; rk_secret_alg := STR_DH;
+           rk_secret_params := Some sp; rk_priv_len := 512; rk_pub_len := 2048 |}).
+Proof. exact load_key_root_defaults. Qed.
+Print Assumptions C10_load_key_root_defaults.
+Theorem C10_flow_keycache_load_key_default_call : forall c r1 r2 r3 ns dns getkey fuel cc key rkid,
+  self_after (run_mut (MW c r1 r2 r3 ns dns getkey) fuel k_flow_keycache_load_key
+                [VO (OCache cc); VB key; VB rkid; VI 1; VS STR_KDF_ALG; VN; VS STR_DH; VN; VI 512; VI 2048])
+  = (let* rk := load_key_root key 1 STR_KDF_ALG None STR_DH None 512 2048 in Ok (VN, VO (OCache (cc_load cc rkid rk)))).
+Proof. exact flow_keycache_load_key_default_call. Qed.
+Print Assumptions C10_flow_keycache_load_key_default_call.
 
+(* ---- 5. _get_protection_gke_from_cache (gen/F_e2e.v): value and cache afterwards (parameter 2).
+   Precondition: root_key_identifier is None or a UUID (16 octets here; the empty octet string is not one) ---- *)
+Theorem C10_flow_get_protection_gke_from_cache_state : forall c r1 r2 r3 time_ns dns getkey fuel rkid sd cc,
+  rkid <> Some [] ->
+  gke_value_and_cache (run_mut (MW c r1 r2 r3 time_ns dns getkey) fuel k_flow_get_protection_gke_from_cache
+                         [vbytes_opt rkid; VB sd; VO (OCache cc)])
+  = lift_gke_state (protection_gke_from_cache c cc rkid sd time_ns).
+Proof. exact flow_get_protection_gke_from_cache_state. Qed.
+Print Assumptions C10_flow_get_protection_gke_from_cache_state.
+Example C10_flow_gke_precondition_ok : Some (repeat 5 16) <> Some (@nil Z) /\ (@None bytes) <> Some [].
+Proof. split; discriminate. Qed.
+
+(* ---- 6. the cache when the call raises (see 3b) ---- *)
+(* abstract: body without the final return *)
+Theorem C10_flow_unprotect_abs_cache : forall (K RK : Type) (kdf : KDF K) (l1seed : SEED K RK) (nokey : K) (dc : DC K) (now0 now1 now2 : Z)
+    fuel sd rk l0 l1 l2 server u p a co,
+  acache_local (PyAstMut.exec_block (AMW kdf l1seed nokey dc now0 now1 now2) fuel (removelast (pf_body k_flow_ncrypt_unprotect_secret))
+                  (aunprotect_env sd rk l0 l1 l2 server u p a co))
+  = Ok (Some (VO (ACache (snd (Cache.unprotect kdf l1seed nokey dc (acache_or_new co) sd rk l0 l1 l2))))).
+Proof. exact (@flow_unprotect_abs_cache). Qed.
+Print Assumptions C10_flow_unprotect_abs_cache.
+Theorem C10_flow_async_unprotect_abs_cache : forall (K RK : Type) (kdf : KDF K) (l1seed : SEED K RK) (nokey : K) (dc : DC K) (now0 now1 now2 : Z)
+    fuel sd rk l0 l1 l2 server u p a co,
+  acache_local (PyAstMut.exec_block (AMW kdf l1seed nokey dc now0 now1 now2) fuel (removelast (pf_body k_flow_async_ncrypt_unprotect_secret))
+                  (aunprotect_env sd rk l0 l1 l2 server u p a co))
+  = Ok (Some (VO (ACache (snd (Cache.unprotect kdf l1seed nokey dc (acache_or_new co) sd rk l0 l1 l2))))).
+Proof. exact (@flow_async_unprotect_abs_cache). Qed.
+Print Assumptions C10_flow_async_unprotect_abs_cache.
+(* aprotect_cache: Raise x when protection_gke = Some (Raise x) (compute_l2_key raised inside the callee), else snd (Cache.protect ..) *)
+Theorem C10_flow_protect_abs_cache : forall (K RK : Type) (kdf : KDF K) (l1seed : SEED K RK) (nokey : K) (dc : DC K) (now0 now1 now2 : Z)
+    fuel d sd rko server dom u p a co,
+  acache_local (PyAstMut.exec_block (AMW kdf l1seed nokey dc now0 now1 now2) fuel (removelast (pf_body k_flow_ncrypt_protect_secret))
+                  (aprotect_env d sd rko server dom u p a co))
+  = aprotect_cache kdf l1seed nokey dc now0 now1 now2 (acache_or_new co) sd rko.
+Proof. exact (@flow_protect_abs_cache). Qed.
+Print Assumptions C10_flow_protect_abs_cache.
+Theorem C10_flow_async_protect_abs_cache : forall (K RK : Type) (kdf : KDF K) (l1seed : SEED K RK) (nokey : K) (dc : DC K) (now0 now1 now2 : Z)
+    fuel d sd rko server dom u p a co,
+  acache_local (PyAstMut.exec_block (AMW kdf l1seed nokey dc now0 now1 now2) fuel (removelast (pf_body k_flow_async_ncrypt_protect_secret))
+                  (aprotect_env d sd rko server dom u p a co))
+  = aprotect_cache kdf l1seed nokey dc now0 now1 now2 (acache_or_new co) sd rko.
+Proof. exact (@flow_async_protect_abs_cache). Qed.
+Print Assumptions C10_flow_async_protect_abs_cache.
+(* concrete: body without the final return / up to the cache lookup *)
+Theorem C10_flow_unprotect_cache_stored : forall c r1 r2 r3 ns dns getkey fuel data server u p a co,
+  cache_local (PyAstMut.exec_block (MW c r1 r2 r3 ns dns getkey) fuel (removelast (pf_body k_flow_ncrypt_unprotect_secret)) (unprotect_env data server u p a co))
+  = lift_cache (unprotect_stored c dns getkey (cache_or_new co) data server u p a).
+Proof. exact flow_unprotect_cache_stored. Qed.
+Print Assumptions C10_flow_unprotect_cache_stored.
+Theorem C10_flow_async_unprotect_cache_stored : forall c r1 r2 r3 ns dns getkey fuel data server u p a co,
+  cache_local (PyAstMut.exec_block (MW c r1 r2 r3 ns dns getkey) fuel (removelast (pf_body k_flow_async_ncrypt_unprotect_secret)) (unprotect_env data server u p a co))
+  = lift_cache (unprotect_stored c dns getkey (cache_or_new co) data server u p a).
+Proof. exact flow_async_unprotect_cache_stored. Qed.
+Print Assumptions C10_flow_async_unprotect_cache_stored.
+Theorem C10_flow_unprotect_cache_looked_up : forall c r1 r2 r3 ns dns getkey fuel data server u p a co,
+  cache_local (PyAstMut.exec_block (MW c r1 r2 r3 ns dns getkey) fuel (firstn 4 (pf_body k_flow_ncrypt_unprotect_secret)) (unprotect_env data server u p a co))
+  = lift_cache (unprotect_looked_up c (cache_or_new co) data).
+Proof. exact flow_unprotect_cache_looked_up. Qed.
+Print Assumptions C10_flow_unprotect_cache_looked_up.
+Theorem C10_flow_async_unprotect_cache_looked_up : forall c r1 r2 r3 ns dns getkey fuel data server u p a co,
+  cache_local (PyAstMut.exec_block (MW c r1 r2 r3 ns dns getkey) fuel (firstn 4 (pf_body k_flow_async_ncrypt_unprotect_secret)) (unprotect_env data server u p a co))
+  = lift_cache (unprotect_looked_up c (cache_or_new co) data).
+Proof. exact flow_async_unprotect_cache_looked_up. Qed.
+Print Assumptions C10_flow_async_unprotect_cache_looked_up.
+Theorem C10_flow_protect_cache_stored : forall c r1 r2 r3 ns dns getkey fuel data sid rkid server dom u p a co,
+  cache_local (PyAstMut.exec_block (MW c r1 r2 r3 ns dns getkey) fuel (removelast (pf_body k_flow_ncrypt_protect_secret)) (protect_env data sid rkid server dom u p a co))
+  = lift_cache (protect_stored c ns dns getkey (cache_or_new co) sid rkid server dom u p a).
+Proof. exact flow_protect_cache_stored. Qed.
+Print Assumptions C10_flow_protect_cache_stored.
+Theorem C10_flow_async_protect_cache_stored : forall c r1 r2 r3 ns dns getkey fuel data sid rkid server dom u p a co,
+  cache_local (PyAstMut.exec_block (MW c r1 r2 r3 ns dns getkey) fuel (removelast (pf_body k_flow_async_ncrypt_protect_secret)) (protect_env data sid rkid server dom u p a co))
+  = lift_cache (protect_stored c ns dns getkey (cache_or_new co) sid rkid server dom u p a).
+Proof. exact flow_async_protect_cache_stored. Qed.
+Print Assumptions C10_flow_async_protect_cache_stored.
+Theorem C10_flow_protect_cache_looked_up : forall c r1 r2 r3 ns dns getkey fuel data sid rkid server dom u p a co,
+  cache_local (PyAstMut.exec_block (MW c r1 r2 r3 ns dns getkey) fuel (firstn 7 (pf_body k_flow_ncrypt_protect_secret)) (protect_env data sid rkid server dom u p a co))
+  = lift_cache (protect_looked_up c ns (cache_or_new co) sid rkid).
+Proof. exact flow_protect_cache_looked_up. Qed.
+Print Assumptions C10_flow_protect_cache_looked_up.
+Theorem C10_flow_async_protect_cache_looked_up : forall c r1 r2 r3 ns dns getkey fuel data sid rkid server dom u p a co,
+  cache_local (PyAstMut.exec_block (MW c r1 r2 r3 ns dns getkey) fuel (firstn 7 (pf_body k_flow_async_ncrypt_protect_secret)) (protect_env data sid rkid server dom u p a co))
+  = lift_cache (protect_looked_up c ns (cache_or_new co) sid rkid).
+Proof. exact flow_async_protect_cache_looked_up. Qed.
+Print Assumptions C10_flow_async_protect_cache_looked_up.
+(* the model's cache afterwards is the stored one if the pipeline gets that far, else the looked-up one, else the initial one *)
+Theorem C10_unprotect_online_cache_cases : forall c dns getkey cache data server u p a,
+  snd (unprotect_online c dns getkey cache data server u p a)
+  = match unprotect_stored c dns getkey cache data server u p a with
+    | Ok cc2 => cc2
+    | Raise _ => match unprotect_looked_up c cache data with Ok cc1 => cc1 | Raise _ => cache end
+    end.
+Proof. exact unprotect_online_cache_cases. Qed.
+Print Assumptions C10_unprotect_online_cache_cases.
+Theorem C10_protect_online_cache_cases : forall c r1 r2 r3 ns dns getkey cache data sid rkid server dom u p a,
+  snd (protect_online c r1 r2 r3 ns dns getkey cache data sid rkid server dom u p a)
+  = match protect_stored c ns dns getkey cache sid rkid server dom u p a with
+    | Ok cc2 => cc2
+    | Raise _ => match protect_looked_up c ns cache sid rkid with Ok cc1 => cc1 | Raise _ => cache end
+    end.
+Proof. exact protect_online_cache_cases. Qed.
+Print Assumptions C10_protect_online_cache_cases.
